@@ -127,3 +127,39 @@ def c19_pearsonr_no_intercept(stream, case, detail):
     """pearsonr(X, Y, Z) regresses X and Y on Z without an intercept: with a non-empty Z the result is not the Pearson
     test on (intercept) regression residuals and changes when any variable is shifted"""
     return stream == "pearsonr" and case.get("nz", 0) > 0 and isinstance(detail, dict) and detail.get("kind") in ("reference", "affine")
+
+
+# ----------------------------------------------------------------------------- C10
+def c10_bds_unobserved_config(stream, case, detail):
+    """BDsScore with a parent configuration that never occurs in the data: beta is computed from all q configurations instead
+    of the observed ones (and the alpha / beta adjustment terms follow), so the score differs from Scutari's closed form"""
+    if case.get("kind") != "bds" and case.get("method") != "bds":
+        return False
+    rows = case["rows"]
+    n = len(case["cols"])
+    if case.get("pass_state_names"):
+        card = case["card"]
+    else:
+        card = [len({r[v] for r in rows}) for v in range(n)]
+
+    def unobserved(parents):
+        if not parents:
+            return False
+        q = 1
+        for p in parents:
+            q *= card[p]
+        return len({tuple(r[p] for p in parents) for r in rows}) < q
+    if stream == "local":
+        return unobserved(case["parents"])
+    if stream in ("network", "equivalence", "hc_blackbox"):
+        edges = case["edges"] + case.get("edges2", [])
+        return any(unobserved([u for u, w in edges if w == v]) for v in range(n))
+    return False
+
+
+# ----------------------------------------------------------------------------- C14
+def c14_to_factor_graph(stream, case, detail):
+    """MarkovNetwork.to_factor_graph builds string factor nodes ('phi_A_B'); the resulting FactorGraph fails its own
+    check_model (and the name construction raises TypeError for non-string variables)"""
+    return stream == "mn" and case.get("target") == "fg" and isinstance(detail, str) and \
+        ("to_factor_graph(): target fails its own check_model" in detail or "expected str instance" in detail)
